@@ -5,6 +5,7 @@ package main
 
 import (
 	"fmt"
+	"go/token"
 	"go/types"
 	"sort"
 	"strings"
@@ -1996,4 +1997,305 @@ func liveGuards(b *ssa.BasicBlock) []Guard {
 		out = append(out, g)
 	}
 	return out
+}
+
+// wrapperOutcomes (C20): every single-operation wrapper evaluated whole, with buffered channels kept concretely, over
+// what can happen to its operation: completed successfully (callback before Wait returns), refused at dispatch,
+// completed with the server's error (result arguments nil, as gocbcore passes them), never completed (Wait reports
+// the deadline). The wrapper must return nil exactly in the first case, a non-nil error in the others, and must not
+// block, panic or touch the absent result.
+func wrapperOutcomes(c *Ctx, id string) {
+	w := c.W
+	type unit struct {
+		root  *ssa.Function
+		sites []*asyncSite
+	}
+	units := map[string]*unit{}
+	for _, s := range asyncSites(w) {
+		r := rootFn(s.Fn)
+		if s.asyncOp() == nil || s.Fn != r {
+			continue // (fan-out wrappers and operations awaited elsewhere are evaluated by their own rules)
+		}
+		u := units[fname(r)]
+		if u == nil {
+			u = &unit{root: r}
+			units[fname(r)] = u
+		}
+		u.sites = append(u.sites, s)
+	}
+	// a server error of a dynamic type no wrapper knows (type assertions on it fail)
+	otherErr := types.NewNamed(types.NewTypeName(token.NoPos, nil, "otherServerError", nil), types.NewStruct(nil, nil), nil)
+	zeroOf := func(t types.Type) AV {
+		switch u := t.Underlying().(type) {
+		case *types.Pointer:
+			return avPtr{nil}
+		case *types.Slice:
+			return avSlice{isNil: true}
+		case *types.Interface:
+			return avIface{isNil: true}
+		case *types.Map, *types.Chan:
+			return avRef{"nil"}
+		case *types.Basic:
+			switch {
+			case u.Info()&types.IsInteger != 0:
+				return avInt{}
+			case u.Kind() == types.Bool:
+				return avBool{}
+			case u.Info()&types.IsString != 0:
+				return avStr{isC: true}
+			}
+		}
+		return avOpaque{"zero"}
+	}
+	// evaluated by a rule of its own, with a different success condition
+	own := map[string]string{"Ping": "success additionally needs both service endpoints (the ping rule of C19/C20)"}
+	n := 0
+	for _, k := range sortedKeys(units) {
+		u := units[k]
+		if len(u.sites) != 1 || own[u.sites[0].Op] != "" {
+			continue
+		}
+		site := u.sites[0]
+		root := u.root
+		res := root.Signature.Results()
+		if res.Len() == 0 || !types.Identical(res.At(res.Len()-1).Type(), types.Universe.Lookup("error").Type()) {
+			continue
+		}
+		n++
+		c.see(root)
+		noInline := map[string]bool{}
+		for _, fn := range w.ModFuncs {
+			if fn.Pkg == root.Pkg && (fn.Name() == "NewAsyncOp" || (fn.Signature.Recv() != nil && strings.EqualFold(recvTypeName(fn.Signature.Recv().Type()), "asyncOp"))) {
+				noInline[fname(fn)] = true
+			}
+		}
+		// another wrapper called on the way is taken as having succeeded with empty results (it is evaluated as a unit of its own)
+		for k2, u2 := range units {
+			if k2 != k {
+				noInline[k2] = true
+				_ = u2
+			}
+		}
+		opLabel := fname(site.Call.Common().StaticCallee())
+		cbSig, _ := site.CbValue.Type().Underlying().(*types.Signature)
+		args := map[string]func(st *State) AV{}
+		for _, p := range root.Params {
+			if mt, ok := p.Type().Underlying().(*types.Map); ok {
+				_ = mt
+				name := p.Name()
+				args[name] = func(st *State) AV {
+					return avMap{&mapObj{sym: name, keys: []AV{avOpaque{name + ".key0"}}, vals: []AV{avOpaque{name + ".val0"}}}}
+				}
+			}
+		}
+		const (
+			done = iota
+			refused
+			serverError
+			silent
+		)
+		h := &Harness{Fn: root, Choices: map[string]int{"operation": 4}, Bools: []string{"hasCollectionsSupport"}, Quiet: quietLog, MaxSteps: 20000, Concrete: true, NoInline: noInline, Args: args,
+			Input: func(st *State, sym string, t types.Type) AV {
+				// the collections inside a result the server sent have one (symbolic) element
+				if sl, ok := t.Underlying().(*types.Slice); ok && strings.HasPrefix(sym, "result") {
+					return avSlice{cells: []*cell{{typ: sl.Elem(), sym: sym + "[0]"}}}
+				}
+				return nil
+			},
+			Complete: func(st *State, name string, args []AV) (AV, []AV, bool) {
+				if name != opLabel || cbSig == nil || (st.C("operation") != done && st.C("operation") != serverError) {
+					return nil, nil, false
+				}
+				var cbArgs []AV
+				for i := 0; i < cbSig.Params().Len(); i++ {
+					t := cbSig.Params().At(i).Type()
+					sym := fmt.Sprintf("result%d", i)
+					switch u := t.Underlying().(type) {
+					case *types.Interface:
+						if types.Identical(t, types.Universe.Lookup("error").Type()) {
+							if st.C("operation") == serverError {
+								cbArgs = append(cbArgs, avIface{sym: "errServer", dyn: otherErr, val: avOpaque{"errServer"}})
+							} else {
+								cbArgs = append(cbArgs, avIface{isNil: true})
+							}
+						} else {
+							cbArgs = append(cbArgs, avIface{sym: sym})
+						}
+					case *types.Pointer:
+						if st.C("operation") == serverError {
+							cbArgs = append(cbArgs, avPtr{nil})
+						} else {
+							cbArgs = append(cbArgs, avPtr{&cell{typ: u.Elem(), sym: sym}})
+						}
+					case *types.Slice:
+						if st.C("operation") == serverError {
+							cbArgs = append(cbArgs, avSlice{isNil: true})
+						} else {
+							cbArgs = append(cbArgs, avSlice{cells: []*cell{{typ: u.Elem(), sym: sym + "[0]"}}})
+						}
+					default:
+						cbArgs = append(cbArgs, avOpaque{sym})
+					}
+				}
+				return args[len(args)-1], cbArgs, true
+			},
+			Oracle: func(st *State, name string, args []AV, res *types.Tuple) ([]AV, bool) {
+				switch {
+				case name == opLabel:
+					if st.C("operation") == refused {
+						return []AV{avIface{isNil: true}, avIface{sym: "errDispatch"}}, true
+					}
+					return []AV{avIface{sym: "pendingOp"}, avIface{isNil: true}}, true
+				case strings.HasSuffix(name, ".Wait") && res != nil && res.Len() == 1 && len(args) >= 2:
+					if e, ok := args[len(args)-1].(avIface); ok && !e.isNil {
+						return []AV{e}, true
+					}
+					if st.C("operation") == silent {
+						return []AV{avIface{sym: "errDeadline"}}, true
+					}
+					return []AV{avIface{isNil: true}}, true
+				case strings.HasSuffix(name, ".NewAsyncOp"):
+					return []AV{ptrResult(res, 0, "asyncOp")}, true
+				case strings.HasSuffix(name, ".HasCollectionsSupport"):
+					return []AV{avBool{st.B("hasCollectionsSupport")}}, true
+				case units[name] != nil && res != nil:
+					var out []AV
+					for i := 0; i < res.Len(); i++ {
+						out = append(out, zeroOf(res.At(i).Type()))
+					}
+					return out, true
+				}
+				return nil, false
+			}}
+		names := []string{"completed", "refused at dispatch", "completed with the server's error", "never completed"}
+		c.oae(id, "outcome:"+site.key(), root.Pos(), h, func(st *State, out *Outcome) string {
+			what := names[st.C("operation")]
+			if out.Blocked != "" {
+				return "operation " + what + ": the wrapper blocks for ever (" + out.Blocked + ")"
+			}
+			if out.Panicked {
+				return "operation " + what + ": the wrapper panics (" + avString(out.PanicVal) + ")"
+			}
+			e, ok := out.Ret[len(out.Ret)-1].(avIface)
+			if !ok {
+				return "operation " + what + ": the returned error is not determined: " + avString(out.Ret[len(out.Ret)-1])
+			}
+			if (st.C("operation") == done) != e.isNil {
+				return fmt.Sprintf("operation %s: the wrapper returns error=%s", what, avString(e))
+			}
+			if st.C("operation") == done {
+				for _, r := range out.Ret[:len(out.Ret)-1] {
+					if !mentionsResult(r) {
+						return "the operation completed, but the wrapper returns " + avString(r) + ", which is not what the server answered"
+					}
+				}
+			}
+			return ""
+		}, "nil (with the server's answer) ⇔ the operation completed without error; otherwise a non-nil error; never blocks, never panics")
+	}
+	c.Check(n >= 10, id, "outcome-floor", 0, fmt.Sprintf("%d single-operation wrappers evaluated", n), fmt.Sprintf("only %d single-operation wrappers found (expected ≥ 10)", n))
+}
+
+// mentionsResult: the value is (part of) a result object handed to the completion callback (symbols result<i>…).
+func mentionsResult(a AV) bool {
+	switch x := a.(type) {
+	case avPtr:
+		return x.c != nil && strings.HasPrefix(x.c.sym, "result")
+	case avStruct:
+		return x.c != nil && strings.HasPrefix(x.c.sym, "result")
+	case avSlice:
+		if strings.HasPrefix(x.sym, "result") {
+			return true
+		}
+		for _, c := range x.cells {
+			if strings.HasPrefix(c.sym, "result") {
+				return true
+			}
+		}
+		return false
+	case avInt:
+		return strings.HasPrefix(x.atom, "result")
+	case avStr:
+		return strings.HasPrefix(x.sym, "result")
+	case avOpaque:
+		return strings.Contains(x.why, " result")
+	case avIface:
+		return strings.HasPrefix(x.sym, "result") || (x.val != nil && mentionsResult(x.val))
+	}
+	return false
+}
+
+// collectionIDsExact (C03): the id→name table the events are labelled with. GetCollectionIDs evaluated whole for 0..2
+// configured names × collection support × the resolution that fails: with collection support the table has exactly one
+// entry per configured name, keyed by the id the server resolved for that name; without it the table is empty (never
+// nil); a failed resolution ends start-up with the error and no table.
+func collectionIDsExact(c *Ctx, id string) {
+	w := c.W
+	fn := w.Method("couchbase", "client", "GetCollectionIDs")
+	one := w.Method("couchbase", "client", "getCollectionID")
+	c.need(fn != nil && one != nil && len(fn.Params) == 3, id, "client.GetCollectionIDs(scope, names) / getCollectionID")
+	c.see(fn)
+	namesP := fn.Params[2].Name()
+	for k := 0; k <= 2; k++ {
+		kk := k
+		h := &Harness{Fn: fn, Bools: []string{"hasCollectionsSupport"}, Choices: map[string]int{"failsAt": kk + 1}, Quiet: quietLog, MaxSteps: 20000, Concrete: true,
+			NoInline: map[string]bool{fname(one): true},
+			Args: map[string]func(st *State) AV{namesP: func(st *State) AV {
+				cs := []*cell{}
+				for i := 0; i < kk; i++ {
+					cs = append(cs, &cell{typ: types.Typ[types.String], sym: fmt.Sprintf("name%d", i), have: true, val: avStr{sym: fmt.Sprintf("name%d", i)}})
+				}
+				return avSlice{cells: cs}
+			}},
+			Oracle: func(st *State, name string, args []AV, res *types.Tuple) ([]AV, bool) {
+				switch {
+				case name == fname(one) && len(args) == 4:
+					nm := avString(args[3])
+					if strings.HasPrefix(nm, "name") && nm == fmt.Sprintf("name%d", st.C("failsAt")) {
+						return []AV{avInt{}, avIface{sym: "errResolve"}}, true
+					}
+					return []AV{avOpaque{"int idOf(" + nm + ")"}, avIface{isNil: true}}, true
+				case strings.HasSuffix(name, ".HasCollectionsSupport"):
+					return []AV{avBool{st.B("hasCollectionsSupport")}}, true
+				}
+				return nil, false
+			}}
+		c.oae(id, fmt.Sprintf("collection-table[%d names]", k), fn.Pos(), h, func(st *State, out *Outcome) string {
+			if out.Panicked || out.Blocked != "" {
+				return "panics or blocks"
+			}
+			e, ok := out.Ret[1].(avIface)
+			if !ok {
+				return "the returned error is not determined: " + avString(out.Ret[1])
+			}
+			fails := st.B("hasCollectionsSupport") && st.C("failsAt") < kk
+			if fails != !e.isNil {
+				return fmt.Sprintf("returns error=%s although resolution failure=%v", avString(e), fails)
+			}
+			if fails {
+				if _, isMap := out.Ret[0].(avMap); isMap {
+					return "returns a table together with the error"
+				}
+				return ""
+			}
+			mm, isMap := out.Ret[0].(avMap)
+			if !isMap {
+				return "returns no table (" + avString(out.Ret[0]) + ") although nothing failed"
+			}
+			want := 0
+			if st.B("hasCollectionsSupport") {
+				want = kk
+			}
+			if len(mm.o.keys) != want {
+				return fmt.Sprintf("the table has %d entries for %d configured names (collection support: %v)", len(mm.o.keys), kk, st.B("hasCollectionsSupport"))
+			}
+			for i := range mm.o.keys {
+				nm := avString(mm.o.vals[i])
+				if avString(mm.o.keys[i]) != "?int idOf("+nm+")" {
+					return fmt.Sprintf("entry %s → %s: the name is not filed under the id resolved for it", avString(mm.o.keys[i]), nm)
+				}
+			}
+			return ""
+		}, "table = {idOf(name) → name | configured names} with collection support, {} without; (nil, err) when a resolution fails")
+	}
 }
